@@ -166,7 +166,12 @@ package rapid
 
 // before the first invocation start nothing is owed: a reset for timeout / failure during the first initialisation
 // must not produce a runtime-done that belongs to no invocation
+// C16: the Runtime API address handed to the runtime and the extensions is read after the listener exists (with port 0 the
+// port is allocated by Listen)
+//@ event ApiListen = call rapi.(*Server).Listen
+//@ event ApiPortRead = call rapi.(*Server).Port
 //@ func Start
+//@   ensures [C16: the-published-address-is-read-after-listening] delta(ApiListen) == 1 && delta(ApiPortRead) == 1 && first(ApiListen) < first(ApiPortRead)
 //@   ensures [nothing-is-owed-before-the-first-invocation-start] typeis(r0, *rapidContext) && r0.(*rapidContext).invokeRuntimeDoneSent
 // the runtime-done bookkeeping of one invocation: rtDoneBooked(c) relates the flag on the context to the ghost count
 //@ spec rtDoneBooked(execCtx *rapidContext) bool = since(EvInvokeRuntimeDone, EvInvokeStart) <= 1 && (since(EvInvokeRuntimeDone, EvInvokeStart) >= 1 ==> execCtx.invokeRuntimeDoneSent)
